@@ -489,3 +489,6 @@ V("C16", "decode-surrogatepass", "F", "R5", EXP, 'errors="replace"', 'errors="su
 B("C16", "decode-ignore", EXP, 'errors="replace"', 'errors="backslashreplace"')
 V("C15", "ignored-set-rooted", "F", "R6", R + "vcs.py", "        return {Path(file_) for file_ in all_files if file_}\n", "        return {self.root / file_ for file_ in all_files if file_}\n")
 V("C03", "query-not-relative", "F", "R6", R + "vcs.py", "        path = relative_from_root(path, self.root)\n        return path not in self._all_tracked_files\n", "        path = self.root / path\n        return path not in self._all_tracked_files\n")
+V("C14", "glob-root-unescaped", "F", "R7", PRJ, 'directory = str(Path(glob.escape(str(self.root))) / "LICENSES/**")', 'directory = str(self.root / "LICENSES/**")')
+B("C14", "glob-escape-os-join", PRJ, 'directory = str(Path(glob.escape(str(self.root))) / "LICENSES/**")', 'directory = os.path.join(glob.escape(str(self.root)), "LICENSES", "**")')
+B("C06", "glob-escape-os-join", PRJ, 'directory = str(Path(glob.escape(str(self.root))) / "LICENSES/**")', 'directory = os.path.join(glob.escape(str(self.root)), "LICENSES", "**")')
